@@ -485,6 +485,42 @@ func init() {
 	reg("(*github.com/cespare/xxhash/v2.Digest).Sum64", func(fr *frame, args []value) value { return xd(args[0]).Sum64() })
 	reg("(*github.com/cespare/xxhash/v2.Digest).Reset", func(fr *frame, args []value) value { xd(args[0]).Reset(); return nil })
 
+	// ---- strings.Builder (uses unsafe): buf lives in field 1 as a []value of bytes
+	sbBuf := func(v value) *value { return &(*ptr(v)).(structure)[1] }
+	sbAppend := func(v value, b []byte) {
+		p := sbBuf(v)
+		cur, _ := (*p).([]value)
+		*p = append(cur, fromBytes(b)...)
+	}
+	reg("(*strings.Builder).WriteString", func(fr *frame, args []value) value {
+		sbAppend(args[0], []byte(str(args[1])))
+		return tuple{len(str(args[1])), iface{}}
+	})
+	reg("(*strings.Builder).WriteByte", func(fr *frame, args []value) value {
+		sbAppend(args[0], []byte{args[1].(byte)})
+		return iface{}
+	})
+	reg("(*strings.Builder).WriteRune", func(fr *frame, args []value) value {
+		b := []byte(string(args[1].(rune)))
+		sbAppend(args[0], b)
+		return tuple{len(b), iface{}}
+	})
+	reg("(*strings.Builder).Write", func(fr *frame, args []value) value {
+		b := bytesOf(args[1])
+		sbAppend(args[0], b)
+		return tuple{len(b), iface{}}
+	})
+	reg("(*strings.Builder).String", func(fr *frame, args []value) value {
+		cur, _ := (*sbBuf(args[0])).([]value)
+		return string(bytesOf(cur))
+	})
+	reg("(*strings.Builder).Len", func(fr *frame, args []value) value {
+		cur, _ := (*sbBuf(args[0])).([]value)
+		return len(cur)
+	})
+	reg("(*strings.Builder).Reset", func(fr *frame, args []value) value { *sbBuf(args[0]) = []value(nil); return nil })
+	reg("(*strings.Builder).Grow", func(fr *frame, args []value) value { return nil })
+
 	// ---- sync
 	reg("(*sync.Once).Do", func(fr *frame, args []value) value { fr.i.onceDo(fr, ptr(args[0]), args[1]); return nil })
 	reg("(*sync.Mutex).Lock", func(fr *frame, args []value) value { fr.i.mutexLock(ptr(args[0])); return nil })
